@@ -5,6 +5,7 @@ import (
 	"go/token"
 	"go/types"
 	"math/big"
+	"runtime"
 	"sort"
 	"strings"
 
@@ -30,6 +31,7 @@ type Decision struct {
 	Taken  bool
 	HasVal bool
 	Val    uint64
+	Forced bool // the other side was infeasible: implied by the path condition
 }
 
 type nondetRec struct {
@@ -75,6 +77,7 @@ type Path struct {
 
 	globals  map[*ssa.Global]*Obj
 	initDone map[*ssa.Package]bool
+	initAborted map[*ssa.Package]string
 	nextObj  int
 	nondets  []nondetRec
 	obs      []obsRec
@@ -192,13 +195,17 @@ func (p *Path) fork(c *term.T) bool {
 	if p.forks > p.H.MaxDepth {
 		p.end("budget", "more than %d symbolic decisions on one path (unwinding bound)", p.H.MaxDepth)
 	}
+	// every symbolic decision is recorded (also one-sided ones) so that a
+	// replayed prefix lines up with the decisions met on re-execution
 	rt, _ := p.check(c, nil)
 	if rt == smt.Unsat {
-		p.addPC(nc)
+		p.newTrace = append(p.newTrace, Decision{Taken: false, Forced: true})
+		p.addPC(nc) // implied, but a useful lemma for later queries
 		return false
 	}
 	rf, _ := p.check(nc, nil)
 	if rf == smt.Unsat {
+		p.newTrace = append(p.newTrace, Decision{Taken: true, Forced: true})
 		p.addPC(c)
 		return true
 	}
@@ -594,6 +601,7 @@ func (p *Path) store(ptr *Ptr, v Value) {
 	if ptr.Obj == nil {
 		p.gopanic("runtime error: invalid memory address or nil pointer dereference")
 	}
+	ptr.Obj.Written = true
 	ptr.Obj.Val = p.storeAt(ptr.Obj.Val, ptr.Path, copyVal(v))
 }
 
@@ -742,6 +750,9 @@ func (p *Path) symStrEq(x *SymStr, y StrV) *term.T {
 
 func (p *Path) global(g *ssa.Global) *Obj {
 	if o, ok := p.globals[g]; ok {
+		if why, bad := p.initAborted[g.Pkg]; bad && !o.Written && p.inInit == 0 {
+			p.unsupported("read of global %s whose package initialiser could not be interpreted completely (%s)", g, why)
+		}
 		return o
 	}
 	pkg := g.Pkg
@@ -790,10 +801,17 @@ func (p *Path) runInit(pkg *ssa.Package) {
 				if pe, ok := r.(*pathEnd); ok && (pe.kind == "unsupported" || pe.kind == "budget") {
 					// partial init: remaining globals keep zero values; remember
 					p.stubs["init("+pkg.Pkg.Path()+") aborted: "+pe.msg] = true
+					p.initAborted[pkg] = pe.msg
 					return
 				}
 				if gp, ok := r.(*goPanic); ok {
 					p.stubs["init("+pkg.Pkg.Path()+") panicked: "+gp.msg] = true
+					p.initAborted[pkg] = gp.msg
+					return
+				}
+				if re, ok := r.(runtime.Error); ok {
+					p.stubs["init("+pkg.Pkg.Path()+") aborted on an uninterpretable value: "+re.Error()] = true
+					p.initAborted[pkg] = re.Error()
 					return
 				}
 				panic(r)
